@@ -674,7 +674,11 @@ CHECKS["C19"].update({
              "on the wrapped document. The loop of _nesting_levels is modelled AS WRITTEN (shape re-extracted: DepthFrontier.nestingLevelsF = the "
              "frontier of selection lists of today's tree; DepthMerged.nestingLevelsM = one list per level, proposed fix C19-H3) and proved equal to "
              "the recursive measure on acyclic documents: nestingLevelsFS_ok, frontier_eq_recursive, ruleF_eq_ruleB, flags_iff_final_frontier, "
-             "ruleF_never_raises (and the same five for the merged loop). selected_fields: selected_fields_exact "
+             "ruleF_never_raises (and the same five for the merged loop). Outside probe C19-1 (a directive that DECIDES next to one that cannot be "
+             "evaluated is ignored by today's hook: `q @skip(if: true) @include(if: $unknown) { … }` is measured): decisive_directive_kept_today (model = "
+             "code), hunter_depth_zero; proposed fix C19-H4 modelled behind the re-extracted flag separateDirectives (skipSelectionT3, ruleF3 / ruleM3, "
+             "Lemmas/DepthSeparate): skipT3_eq_T_of_bound, skipT3_skips_more, measuredF3_eq_depthK3, flags_iff_final_separate, "
+             "decisive_directive_skipped_repaired; deterministic class decisive-probe with the three-valued reference. selected_fields: selected_fields_exact "
              "(listed paths = selected paths within maxdepth matching the pattern), _sound, _complete, _exact_lenient, _lenient_eq_strict. decide "
              "refutations for the original rule and the original selected_fields (Props/C19_orig.lean, C19_paths.lean). Tied by correspondence (error set "
              "per operation, raises, listed paths) and the direct oracles flagged <=> reference depth > limit and listed = reference paths on exhaustive "
@@ -683,7 +687,8 @@ CHECKS["C19"].update({
     "note": ("Trusted: Lean kernel; generators; extraction of the variant flags and of the loop shape; the `id`-based de-duplication inside one level of "
              "_nesting_levels is not modelled (result-transparent, exercised); statelessness of the rule between calls is checked by "
              "the history stream, not proved; float forms of request variables are not generated. Proposed fix C19-H3 (one list per level: polynomial "
-             "number of collections, unedited suite passes; until it is applied the check reports H3 as a known finding). Known findings H1 (a FLAT operation behind ~988 forwarding fragments is reported too deep: RecursionError inside one "
+             "number of collections, unedited suite passes; until it is applied the check reports H3 as a known finding) and C19-H4 (directives "
+             "evaluated on their own; until applied: known finding H4, known_findings.d/C19.json - to be removed with the fix). Known findings H1 (a FLAT operation behind ~988 forwarding fragments is reported too deep: RecursionError inside one "
              "level; not a small repair: needs an explicit stack in collect_fields_untyped, and validation / execution fail on such documents anyway), H3 "
              "(exponential number of collections with key merging across levels; verdicts correct; fix proposed). Repaired: Q1, Q1sf, Q1-vars, Q1-vars2, Q2, Q3, H2."),
     "technique": "Lean 4 proof (rule = spec depth on the live variant, wrapping invariance, path exactness) + exhaustive small-scope correspondence and cost oracle",
